@@ -1,1 +1,10 @@
 import Reamber.Props.C05
+#print axioms Reamber.BMS.writer_consts_tie
+#print axioms Reamber.Timing.findLcm_dvd
+#print axioms Reamber.BMS.newDens_dvd
+#print axioms Reamber.BMS.slot_exact
+#print axioms Reamber.BMS.slot_roundtrip
+#print axioms Reamber.BMS.no_merge_no_drop
+#print axioms Reamber.BMS.line_valid
+#print axioms Reamber.BMS.base36_roundtrip
+#print axioms Reamber.BMS.bpm_3f_counterexample
